@@ -232,7 +232,8 @@ class AbstractDateTime(AnyAtomicType):
         return self._compare(other, operator.eq)
 
     def __ne__(self, other: object) -> bool:
-        return not self._compare(other, operator.eq)
+        result = self._compare(other, operator.eq)
+        return result if result is NotImplemented else not result
 
     def __lt__(self, other: object) -> bool:
         return self._compare(other, operator.lt)
@@ -255,7 +256,10 @@ class AbstractDateTime(AnyAtomicType):
         return self._operation(other, operator.sub)
 
     def _compare(self, other: object, op: Callable[[Any, Any], bool]) -> bool:
-        if isinstance(other, datetime.datetime):
+        if isinstance(other, UntypedAtomic):
+            # the reflected operation of the untyped value casts it to the type of this value
+            return cast(bool, NotImplemented)
+        elif isinstance(other, datetime.datetime):
             dt, year = other, other.year
         elif isinstance(other, AbstractDateTime):
             if op is operator.eq and not isinstance(other, type(self)) \
@@ -1128,7 +1132,10 @@ class Duration(AnyAtomicType):
 
         Ref: https://www.w3.org/TR/2012/REC-xmlschema11-2-20120405/#duration
         """
-        if not isinstance(other, self.__class__):
+        if isinstance(other, UntypedAtomic):
+            # the reflected operation of the untyped value casts it to the type of this value
+            return cast(bool, NotImplemented)
+        elif not isinstance(other, self.__class__):
             raise TypeError("wrong type %r for operand %r" % (type(other), other))
 
         m1, s1 = self.months, int(self.seconds)
